@@ -1,7 +1,7 @@
 (* C07 - property theorems (statements only; the proofs live in Acme.C01.ProofsXxx / Acme.C07.ProofsXxx). *)
 From Coq Require Import ZArith List.
 From Acme.C01 Require Import Layout State Model ProofsLayout ProofsInv ProofsSpec ProofsAccept Refuted ProofsT1 Examples.
-From Acme.C07 Require Import Model Proofs ProofsReg ProofsFinal ProofsEffect.
+From Acme.C07 Require Import Model Proofs ProofsReg ProofsFinal ProofsEffect ProofsRange.
 Import ListNotations.
 Open Scope Z_scope.
 
@@ -209,3 +209,22 @@ Theorem mux_clear_all_effect : forall s u,
   /\ (forall x, ufixed s' u x = false /\ ugids s' u x = None).
 Proof. exact ProofsEffect.mux_clear_all_effect. Qed.
 Print Assumptions mux_clear_all_effect.
+
+(* The absolute bit range of a multiplexed signal at any nesting depth: behind the selector and inside the
+   size of its multiplexer, hence of every ancestor, and inside the payload of the owning message. *)
+Theorem range_in_parent : forall s x u, InvA s -> InvM s -> pmux s x = Some u ->
+  start_bit s u + selw (mux_count s u) <= start_bit s x
+  /\ start_bit s x + sz s x <= start_bit s u + sz s u
+  /\ 1 <= selw (mux_count s u).
+Proof. exact ProofsRange.range_in_parent. Qed.
+Print Assumptions range_in_parent.
+
+Theorem range_in_ancestor : forall n s a x, InvA s -> InvM s -> belowN n s a x ->
+  start_bit s a + selw (mux_count s a) <= start_bit s x /\ start_bit s x + sz s x <= start_bit s a + sz s a.
+Proof. exact ProofsRange.range_in_ancestor. Qed.
+Print Assumptions range_in_ancestor.
+
+Theorem range_in_message : forall ops, ok_hist_f ops -> forall m x, in_tree (run ops) m x ->
+  0 <= start_bit (run ops) x /\ start_bit (run ops) x + sz (run ops) x <= 8 * gbytes (run ops) m.
+Proof. exact range_reachable. Qed.
+Print Assumptions range_in_message.
